@@ -407,6 +407,19 @@ pub fn random(seed: u64, d: Duration) -> Scenario {
     s.events_lazy = s.keep_events && r.chance(1, 12);
     // a transport whose shutdown never completes
     s.world.shutdown_stalls = r.chance(1, 8);
+    // a server that wants a password (accepted), through either constructor; PasswordOpt(None) is the plain connect
+    match r.below(12) {
+        0 => {
+            s.world.password = Some(("open sesame".into(), crate::sim::world::PasswordVerdict::Accept));
+            s.connect = crate::sim::session::ConnectKind::Password("open sesame".into());
+        }
+        1 => {
+            s.world.password = Some(("x".into(), crate::sim::world::PasswordVerdict::Accept));
+            s.connect = crate::sim::session::ConnectKind::PasswordOpt(Some("x".into()));
+        }
+        2 => s.connect = crate::sim::session::ConnectKind::PasswordOpt(None),
+        _ => {}
+    }
     // notifications over the span of the session
     let n = match r.below(4) {
         0 => 0,
